@@ -45,6 +45,16 @@ type Entity struct {
 	Any   any     `json:"any,omitempty"`
 }
 
+// Derived writes a member its struct does not declare (a derived value; read back, it is ignored).
+type Derived struct {
+	A int `json:"a"`
+	B int `json:"b"`
+}
+
+func (d Derived) MarshalJSON() ([]byte, error) {
+	return json.Marshal(map[string]int{"a": d.A, "b": d.B, "sum": d.A + d.B})
+}
+
 // Money has MarshalJSON on the pointer receiver only.
 type Money struct{ Cents int64 }
 
@@ -483,6 +493,7 @@ func TestC19RoundTrip(t *testing.T) {
 			roundTrip(run, r, kind, scratch, []string{str(r), "x"}, []string{"stale", "y", "z"}, "slice entity", func(a, b []string) bool { return reflect.DeepEqual(a, b) })
 			pe, po := &Named{V: r.IntN(50)}, &Named{V: -2}
 			roundTrip(run, r, kind, scratch, pe, po, "pointer entity", func(a, b *Named) bool { return a != nil && b != nil && *a == *b })
+			roundTrip(run, r, kind, scratch, Derived{A: r.IntN(100), B: i}, Derived{A: -1}, "entity whose MarshalJSON adds a derived member", func(a, b Derived) bool { return a == b })
 			// entities whose JSON encoding is null: nil slice, nil map, nil pointer
 			roundTrip(run, r, kind, scratch, []string(nil), []string{"stale"}, "nil slice entity", func(a, b []string) bool { return (len(a) == 0 && len(b) == 0) || reflect.DeepEqual(a, b) })
 			roundTrip(run, r, kind, scratch, map[string]int(nil), map[string]int{"stale": 1}, "nil map entity", func(a, b map[string]int) bool { return (len(a) == 0 && len(b) == 0) || reflect.DeepEqual(a, b) })
